@@ -115,3 +115,17 @@ Theorem C03_fragment_html_instance :
     $"<ul>" ++ [10] ++ $"<li>a &gt; b</li>" ++ [10] ++ $"</ul>" ++ [10] ++ $"</blockquote>".
 Proof. exact html_instance. Qed.
 Print Assumptions C03_fragment_html_instance.
+
+(* A second unbounded fragment: tight nested bullet lists written one item per line (bullet + - or *, 1-4 spaces,
+   a plain title), the sub-items of an item directly below it and indented 0-3 columns beyond its content - any number
+   of items, any depth: the tokens are exactly one list nested as the forest written (Proofs/OutlineP.v; a
+   paragraph ended by the list that interrupts it, items ended by the next sibling's marker). *)
+From Mistletoe Require Import Spec.Outline Proofs.IndentLaw Proofs.OutlineP.
+Theorem C03_outline_lists : forall b pad sub span_types keep fn types f ns ln st k,
+  forallb kind_quiet (removelast span_types) = true ->
+  bullet_ok b -> (1 <= pad <= 4)%nat -> (sub <= 3)%nat -> (k <= 3)%nat -> list_first types = true -> In BK_Paragraph types ->
+  ns <> [] -> Forall (fun n => (odepth n <= f)%nat /\ owf n = true) ns ->
+  make_tokens span_types keep fn (fst (fst (tokenize_block types (S f) (text_of (Outline.oforest b pad sub k ns)) ln st))) =
+  [List None false (map (Outline.otok b pad sub k) ns)].
+Proof. intros b pad sub span_types keep fn types f ns ln st k Hq. exact (outline_tokens b pad sub span_types keep fn Hq types f ns ln st k). Qed.
+Print Assumptions C03_outline_lists.
